@@ -69,11 +69,12 @@ func portsFree(base, n int) bool {
 	return true
 }
 
-// PickBlock returns a free block of PortBlock ports for worker idx of a harness whose blocks start at base
-// (below the ephemeral range, 32768). Several harness processes may run on the machine: a busy block is skipped.
-func PickBlock(base, idx int) (Ports, error) {
-	for try := 0; try < 12; try++ {
-		b := base + (idx+try*16)*PortBlock
+// PickBlock returns a free block of PortBlock ports for worker idx (of n workers) of a harness whose blocks start
+// at base (below the ephemeral range, 32768). Several harness processes may run on the machine: a busy block is
+// skipped. skip = number of blocks of this worker that the caller has already found unusable.
+func PickBlock(base, idx, n, skip int) (Ports, error) {
+	for try := skip; try < skip+6; try++ {
+		b := base + (idx+try*n)*PortBlock
 		b &^= 1
 		if b+PortBlock < 32700 && portsFree(b, PortBlock) {
 			return Ports{Base: b}, nil
@@ -109,11 +110,15 @@ func BaseConf(p Ports, dir string, encryption bool) (map[string]any, error) {
 	if encryption {
 		crt := filepath.Join(dir, "server.crt")
 		key := filepath.Join(dir, "server.key")
-		if err := os.WriteFile(crt, test.TLSCertPub, 0o600); err != nil {
-			return nil, err
-		}
-		if err := os.WriteFile(key, test.TLSCertKey, 0o600); err != nil {
-			return nil, err
+		// written once: the servers watch these files (a rewrite while a Core shuts down makes its certificate
+		// loader log through a logger that is already gone)
+		if _, err := os.Stat(key); err != nil {
+			if err = os.WriteFile(crt, test.TLSCertPub, 0o600); err != nil {
+				return nil, err
+			}
+			if err = os.WriteFile(key, test.TLSCertKey, 0o600); err != nil {
+				return nil, err
+			}
 		}
 		c["rtspEncryption"] = "optional"
 		c["rtspServerCert"] = crt
@@ -136,14 +141,19 @@ func WriteConf(dir, name string, cfg any) (string, error) {
 }
 
 // StartCore starts a real Core from a configuration file. A start can fail for reasons that have nothing to do
-// with the configuration when several checks share the machine (the per-user limit of inotify instances, a port
-// taken in the meantime), so a failed start is retried a few times.
+// with the configuration when several checks share the machine (the per-user limit of inotify instances, 128, is
+// shared by every Core of every process: "couldn't initialize inotify: too many open files"; a port taken in the
+// meantime), so a failed start is retried: tries attempts, pause apart (growing up to 1 s).
 func StartCore(confPath string, tries int) (*core.Core, bool) {
+	pause := 100 * time.Millisecond
 	for i := 0; ; i++ {
 		p, ok := core.New([]string{confPath})
 		if ok || i+1 >= tries {
 			return p, ok
 		}
-		time.Sleep(time.Duration(50*(i+1)) * time.Millisecond)
+		time.Sleep(pause)
+		if pause < time.Second {
+			pause += 150 * time.Millisecond
+		}
 	}
 }
